@@ -35,7 +35,15 @@ CHECKS["C19"] = dict(
     ref="DESIGN.md §5/C19",
 )
 
-PENDING = {k: "claimed in DESIGN.md; check not built yet at this commit, so not claimed here" for k in ['C01','C05','C06','C07','C08','C12','C14','C17']}
+CHECKS["C01"] = dict(
+    level="exploration",
+    text="Seeded histories of public-API operations (all 42 module types, every catalogue slot: common fields over their documented width, controllers incl. unit-dependent ranges, options, MIDI bindings, type-specific payload, links in every operand form, patterns/clones/empty slots, cells, project fields, edits inside embedded MetaModule projects) cross 1-4 save -> restart -> load boundaries; at each restart the loaded project is compared path by path with the pre-save reference snapshot (module names through the 32-byte UTF-8 prefix rule) and the load must not raise. Each history runs in a pristine forked process and is replayable from its op list.",
+    note="Sampled, not exhaustive. The oracle sees the allow-list snapshot of DESIGN Appendix A only. I/O faults cannot change the truth of this property; histories + restart + reference snapshot decide it. Domain restrictions of DESIGN §5/C01 apply.",
+    technique="deterministic simulation: seeded edit histories crossing save/restart/load boundaries, compared with a reference snapshot",
+    ref="DESIGN.md §5/C01",
+)
+
+PENDING = {k: "claimed in DESIGN.md; check not built yet at this commit, so not claimed here" for k in ['C05','C06','C07','C08','C12','C14','C17']}
 
 
 def main():
